@@ -72,7 +72,7 @@ CLAIMED = {
         "Exhaustive exploration of the real Kauri.fit growth loop against a nondeterministic contract stub of find_best_split "
         "(any admissible split or stop, chosen by a forked symbolic integer; any feature subset): on every path all structural "
         "limits, the tree/partition invariants, routing of the training data and of a fresh SYMBOLIC point through the real "
-        "Tree.predict, and score == J(predicted labels) for a symbolic kernel are checked.",
+        "Tree.predict, and score == J(predicted labels) for a symbolic kernel are checked. Scripted growth histories (5 samples, 4 splits, admissibility checked by the C08 oracle) reach bookkeeping that needs more leaves than the exhaustive n<=4 jobs.",
         "Trusted: the contract stub (its faithfulness to the real search is C08); data enter through order/ties only (listed datasets "
         "n<=4, d<=2); hyper-parameter corners (quick) / full small grid (thorough); validation stubbed; float32/64 effects outside.",
         "DESIGN.md §4 C09", "symbolic execution of the repository source (symx): forked symbolic-integer choices + symbolic query point, path-wise evaluation of post-conditions (z3 feasibility)"),
@@ -159,7 +159,7 @@ CLAIMED = {
         "Claimed in part.  Non-interference: every attribute an earlier call could leave is set to stale symbols / sentinels before a "
         "one-epoch symbolic fit and no result term may depend on them (syntactic dependency analysis of the terms); fits after every "
         "sequence of <=2 earlier public calls equal the fresh fit term for term; caller's data / affinity / hyper-parameters are "
-        "untouched (term identity); get_params/set_params/clone round trips for all 18 estimators; Kauri refits concretely.",
+        "untouched (term identity); get_params/set_params/clone round trips for all 18 estimators; Kauri refits concretely. Also: the regularisation path hands the hyper-parameters back unchanged; histories include a fit on the same data and switched-off hyper-parameters; concrete witness over every named kernel / metric for 'inputs untouched'.",
         "Trusted: RNG stub = deterministic function of random_state (NumPy's generator outside); bit-for-bit float reproducibility "
         "outside; one epoch, stub environment; histories of length <= 2.",
         "DESIGN.md §4 C12", "symbolic execution of the repository source (symx) under recording/uninterpreted stubs: identity of symbolic terms and recorded calls (z3 only for path feasibility)"),
@@ -169,7 +169,7 @@ CLAIMED = {
         "path is a counterexample; after fit, on every path: labels_ range/length, predict_proba rows positive and summing to one, "
         "predict == arg-max == labels_, score hands the GEMINI predict_proba(X) and the affinity of X, n_iter_, optimiser class.  "
         "A concrete public-API witness for all 18 estimators (real numerics, score recomputed from the definition) guards the stubbed "
-        "part against vacuity.",
+        "part against vacuity. A sequence of fits in one process checks that each optimiser is built with its own estimator's learning rate and class.",
         "Trusted: stub environment; n=3 (2 for MLP families in the quick tier), K=2, one epoch; GEMINI values stubbed in the grid "
         "(C01/C02 cover them); termination/coherence beyond these shapes, convergence quality and scikit-learn's validation are outside.",
         "DESIGN.md §4 C04", "symbolic execution of the repository source (symx) under stubs: symbolic data/parameters, decisions forked with z3 feasibility, post-conditions by normal form / solver query / term identity"),
@@ -178,7 +178,7 @@ CLAIMED = {
         "forward/backward run symbolically (ties and exact zeros reachable) on the families that are degenerate in exact arithmetic "
         "(duplicated samples / clusters, K=1, n=1, K=n one-hot, uniform predictions, constant or zero affinities, zero weight rows, "
         "coinciding cut points, duplicated columns); every output must be defined on every feasible path (guards proved by the "
-        "solver; x/0 with x != 0 follows IEEE).",
+        "solver; x/0 with x != 0 follows IEEE). Concrete float64 witnesses complement the exact-arithmetic jobs: every estimator on features scaled by 1/100/1000, affinities on duplicated samples, long saturated inputs; gradient shape on the degenerate families.",
         "NOT covered and stated as such: features scaled by a thousand, soft-max saturation, float under/overflow (no SMT theory of "
         "floating-point exp; in exact arithmetic exp never saturates); whole fit/path runs on degenerate data.",
         "DESIGN.md §4 C17", None),
